@@ -54,7 +54,7 @@ func c12ValidText(r *Rng, k Kind, hostile bool) string {
 func c12InvalidText(r *Rng, k Kind) string {
 	switch {
 	case k == KBool:
-		return r.Pick([]string{"yes", "1", "0", "t", "tru", " true", "true ", "on", "TRUEE"})
+		return r.Pick([]string{"yes", "1", "0", "t", "tru", " true", "true ", "on", "TRUEE", "fal\u017fe", "FAL\u017fE", "tr\u00fce", "\uff54rue"})
 	case k.IsInt():
 		return r.Pick([]string{"x", "1.5", "1x", " 1", "0x10", "1e3", "9223372036854775808"})
 	case k.IsFloat():
@@ -83,7 +83,7 @@ func init() {
 		Rule: "quick enumerates kind(7) x env{unset, empty, valid, invalid, mixed-case, equal to default, equal to CLI value}(7) x CLI{absent, --n=v, --n v, flag/bare}(4) x default(3) x pointer/Var(2) completely and adds hostile env/CLI texts; thorough adds more hostile texts, aliases and sibling options. " +
 			"distinct = (kind, env class, cli class, default, texts); non-trivial = the environment variable or the command line actually decides the value. Unasserted (statement silent): Called when the env text is invalid; the value of a bare optional-value option on the CLI while a valid env text is set.",
 		Assumptions: []string{"os.Setenv is called by the single-threaded worker before the definition call (the library reads the variable at definition)"},
-		Cases:       func(tier string) int { return tierN(tier, c12Grid+8000, c12Grid+150000) },
+		Cases:       func(tier string) int { return tierN(tier, c12Grid+8000, c12Grid+3000000) },
 		Run: func(seed uint64, idx int, tier string) *fw.Result {
 			r := CaseRng(seed, "C12", idx)
 			g := idx % c12Grid
@@ -98,6 +98,7 @@ func init() {
 			o.UseVar = g%2 == 1
 			hostile := idx >= c12Grid
 			o.ID, o.Name, o.Env = 0, "target", fmt.Sprintf("VERIF_C12_%d", idx%7)
+			o.SetCalledFirst = hostile && r.Chance(1, 8) // SetCalled(true) given in front of GetEnv: the variable still decides value and CalledAs
 			if hostile && r.Bool() {
 				o.Aliases = []string{"t", "tgt"}
 			}
@@ -223,6 +224,9 @@ func init() {
 			}
 			if !contains(accept, obs.Val) || ptr != obs.Val {
 				return fail(fmt.Sprintf("value %s (pointer/Var %s), expected one of %v", obs.Val, ptr, accept))
+			}
+			if o.SetCalledFirst {
+				wantCalled = true
 			}
 			if checkCalled {
 				if obs.Called != wantCalled {
